@@ -113,6 +113,21 @@ def run(ctx) -> None:
                  "on every tag message instead of at most once per data-log interval")
     else:
         others = [v for v in thr.values if not _is_none_test(v, W)]
+        # an explicit request to store now: a boolean parameter that defaults to False (the session ends - engine disconnect,
+        # aggregator shutdown - and what waits for the interval would be lost with the memory). Every caller that passes it
+        # must be one of those two
+        pargs = pf.node.args
+        defaults = dict(zip([a.arg for a in pargs.args][len(pargs.args) - len(pargs.defaults):], pargs.defaults))
+        flushes = [v for v in others if isinstance(v, ast.Name) and isinstance(defaults.get(v.id), ast.Constant) and defaults[v.id].value is False]
+        if flushes:
+            callers_ok = True
+            for fn in prog.iter_functions():
+                for c in ast.walk(fn.node):
+                    if isinstance(c, ast.Call) and call_attr(c) == pf.name and any(k.arg == flushes[0].id for k in c.keywords):
+                        if fn.name not in ("engine_disconnected", "shutdown"):
+                            callers_ok = False
+            if callers_ok:
+                others = [v for v in others if v not in flushes]
         ok = False
         why = f"`{norm(thr)}`"
         if len(others) == 1 and isinstance(others[0], ast.Compare) and len(others[0].ops) == 1:
